@@ -3,7 +3,7 @@
 // Contracts for the deductive verifier in /verif (comment-only: adds no declarations).
 package certgen
 
-//@ use net asn1 errors time ssh crypto x509 certgen_ext fmt
+//@ use net asn1 bytes errors time ssh crypto x509 certgen_ext fmt
 
 // ---- C10 / C11: the RFC 3779 address-block codec ---------------------------------------------------
 //@ func decodeIPV4AddressChoice
